@@ -181,7 +181,7 @@ def check(ctx):
         for e in evs:
             fams.setdefault(e["inp"]["fam"], []).append(e)
         if set(fams) != {"utmp", "mounts", "args"}:
-            raise core.Machinery("vacuity: families enumerated: %s" % sorted(fams))
+            core.vacuity("families enumerated: %s" % sorted(fams))
         ns_ok = subprocess.run(["unshare", "-m", "sh", "-c", "mount -t tmpfs tmpfs /run"], capture_output=True).returncode == 0
         plan = [("mounts", check_mounts, False), ("args", None, False)]
         if ns_ok:
